@@ -558,6 +558,9 @@ class GenSource:
                 if ft["k"] == "array" and len(ft["shape"]) == 1 and ft["shape"][0] is None and sc[ft["item"]]["k"] == "sc":
                     dyn.append((f[0], typegen.SC_SIZE[sc[ft["item"]]["t"]], len(o.node.f[f[0]].items)))
             pairs = [(a, b) for a in dyn for b in dyn if a[0] < b[0] and a[1] == b[1] and a[2] != b[2]]
+            # ... or two strings whose capacities differ (whole slots): the twin has them exchanged
+            strs = [(f[0], "str", o.node.f[f[0]].cap) for f in sc[o.t]["fields"] if sc[f[1]]["k"] == "str" and o.node.f[f[0]].cap is not None and o.node.f[f[0]].cap % 8 == 0 and o.node.f[f[0]].cap >= 8]
+            pairs += [(a, b) for a in strs for b in strs if a[0] < b[0] and a[2] != b[2]]
             if pairs:
                 tops.append((o, [], o.t, o.node, pairs))
         whole = bool(tops) and (not cands or rng.random() < 0.4)
@@ -570,7 +573,9 @@ class GenSource:
         newlen = {a[0]: b[2], b[0]: a[2]}
         d = {}
         for f in sc[t]["fields"]:
-            if f[0] in newlen:
+            if f[0] in newlen and a[1] == "str":
+                d[f[0]] = {"s": "q" * (newlen[f[0]] - 1)}  # (minimal capacity of this text = the other string's capacity)
+            elif f[0] in newlen:
                 it = sc[sc[f[1]]["item"]]["t"]
                 d[f[0]] = {"l": [M.gen_scalar(rng, it) for _ in range(newlen[f[0]])], "shape": [newlen[f[0]]]}
             else:
@@ -583,7 +588,12 @@ class GenSource:
         if whole:
             cid = self.new_id()
             ops.insert(0, {"op": "copy", "obj": o.k, "place": rng.choice([{"buf": o.bufid, "how": "default"}, {"buf": pick_buf(w, rng), "how": "default"}, {"ctx": 0}]), "id": cid})
-            ops.append({"op": "set", "obj": cid if rng.random() < 0.6 else o.k, "path": [], "value": {"obj": nid}, "via": "handle"})
+            tgt = cid if rng.random() < 0.6 else o.k
+            ops.append({"op": "set", "obj": tgt, "path": [], "value": {"obj": nid}, "via": "handle"})
+            if a[1] == "str":
+                # the string that has SHRUNK is then offered a text that fitted its old capacity: it must be refused
+                small = a if newlen[a[0]] < a[2] else b
+                ops.append({"op": "misuse", "kind": "string_long", "obj": tgt, "path": [small[0]], "value": {"s": "y" * (small[2] - 1)}, "via": "handle"})
             return ops
         ops.append({"op": "set", "obj": o.k, "path": p, "value": {"obj": nid}, "via": "view" if rng.random() < 0.7 else self._via(o)})
         # ... and a leaf of the part is then written through the kept handle (where a stale cached view would misplace it)
